@@ -7,6 +7,8 @@ import persist_common as pc
 import tlc
 
 
+PROBES = [("probe_persist", "asan", None, ["utest"])]
+
 MANIFEST = dict(
     text='TLC proves the store contract (map + control record) for every operation history up to the bound on the TLA+ contract model, exports its complete (state, operation) transition cover, and every exported history is replayed on the real MemoryPersister and FilePersister; TLC then validates each recorded execution against the contract (trace validation), so every return value of every call is judged.',
     note='Trusts TLC, the probe (moves data only), the bytes->id mapping, ASan/UBSan. Keys 0..3 exhaustively, wider keys seeded.',
